@@ -394,7 +394,7 @@ impl Driver {
             let recs: &Vec<Rec> = &obs.queues[&qn].recs;
             let mut cands: Vec<u64> = vec![0, u64::MAX, 1];
             if let (Some(f), Some(l)) = (recs.first(), recs.last()) {
-                cands.extend([f.pos.saturating_sub(1), f.pos, f.pos + 1, l.pos.saturating_sub(1), l.pos, l.pos + 1, (f.pos + l.pos) / 2]);
+                cands.extend([f.pos.saturating_sub(1), f.pos, f.pos + 1, l.pos.saturating_sub(1), l.pos, l.pos + 1, f.pos / 2 + l.pos / 2]);
             }
             let a = *rng.pick(&cands);
             let b = *rng.pick(&cands);
